@@ -27,13 +27,15 @@ pub struct SetMon<T: El> {
     /// enforce the release of the old table (only when C03 is the property under check)
     pub progress_rules: bool,
     pub max_hashes: u64,
+    /// running digest of (op, len, capacity, split) after every call (C17 transcripts)
+    pub trace: u64,
 }
 
 impl<T: El> SetMon<T> {
     pub fn new(cap: usize, bh: Bh) -> Self {
         let live_base = ledger_live();
         let set = if cap == usize::MAX { HashSet::with_hasher(bh) } else { HashSet::with_capacity_and_hasher(cap, bh) };
-        SetMon { set, model: BTreeMap::new(), bh, live_base, nops: 0, calls: 0, split_calls: 0, old_hits: 0, by_code: BTreeMap::new(), work_rules: false, progress_rules: false, max_hashes: 0 }
+        SetMon { set, model: BTreeMap::new(), bh, live_base, nops: 0, calls: 0, split_calls: 0, old_hits: 0, by_code: BTreeMap::new(), work_rules: false, progress_rules: false, max_hashes: 0, trace: 0 }
     }
 
     pub fn locate(&self, k: u64) -> Location {
@@ -144,6 +146,7 @@ impl<T: El> SetMon<T> {
         if let Some((p, m)) = take_violations().into_iter().next() {
             viol!(p, "{m} during {}", op.encode());
         }
+        self.trace = mix(self.trace ^ digest(op.words().chain([self.set.len() as u64, self.set.capacity() as u64, self.set.verif_state().old.is_some() as u64])));
         self.check(op)
     }
 
@@ -270,13 +273,22 @@ impl<T: El> SetMon<T> {
             SGetOrInsertWith => {
                 let q = T::mk(k);
                 let made = std::cell::Cell::new(0u64);
+                // op.v = 1: the closure builds a value that is NOT equal to the probe (allowed:
+                // it is stored as what it is, a previously unseen value)
+                let other = if op.v == 1 { Some((1u64 << 50) + self.nops) } else { None };
                 let r = self.set.get_or_insert_with(&q, |qq| {
                     tick(Cb::Closure);
-                    let t = T::mk(qq.val());
+                    let t = T::mk(other.unwrap_or(qq.val()));
                     made.set(t.id());
                     t
                 });
                 let got = (r.val(), r.id());
+                if let (Some(nk), None) = (other, self.model.get(&k).copied()) {
+                    mismatch("get_or_insert_with (closure value differs from the probe)", format!("{got:?}"), format!("{:?}", (nk, made.get())))?;
+                    self.model.insert(nk, made.get());
+                    drop(q);
+                    return Ok(());
+                }
                 match self.model.get(&k).copied() {
                     Some(id) => {
                         if made.get() != 0 {
@@ -574,6 +586,7 @@ fn set_op<T: El>(rng: &mut Rng, mon: &SetMon<T>, keyspace: u64, max_len: usize, 
             Op::new(code).with_list((0..n).map(|_| rng.below(keyspace * 2)).collect())
         }
         SReserve => Op::n(code, rng.below(100)),
+        SGetOrInsertWith => Op::k(code, key).with_v(rng.chance(1, 4) as u64),
         _ => Op::k(code, key),
     }
 }
@@ -615,7 +628,7 @@ pub fn replay_set(r: &Replay, path: &str) -> i32 {
     }
 }
 
-fn set_history<T: El>(rng: &mut Rng, cfg: &Cfg, keyspace: u64, n: usize, max_len: usize, noforget: bool) -> (Vec<Op>, Result<(u64, u64, u64), Viol>) {
+fn set_history<T: El>(rng: &mut Rng, cfg: &Cfg, keyspace: u64, n: usize, max_len: usize, noforget: bool) -> (Vec<Op>, Result<(u64, u64, u64, u64), Viol>) {
     ledger_reset();
     let mut mon: SetMon<T> = SetMon::new(cfg.cap, cfg.bh);
     mon.work_rules = cfg.focus == "C02";
@@ -630,7 +643,7 @@ fn set_history<T: El>(rng: &mut Rng, cfg: &Cfg, keyspace: u64, n: usize, max_len
             return (ops, Err(v));
         }
     }
-    let c = (mon.calls, mon.split_calls, mon.old_hits);
+    let c = (mon.calls, mon.split_calls, mon.old_hits, mon.trace);
     match mon.finish() {
         Ok(()) => (ops, Ok(c)),
         Err(v) => (ops, Err(v)),
@@ -703,10 +716,21 @@ pub fn build_set<T: El>(contents: &BTreeSet<u64>, bh: Bh, phase: u64, rng: &mut 
 
 fn algebra_pair<T: El>(a: &BTreeSet<u64>, b: &BTreeSet<u64>, sa: &HashSet<T, Bh>, sb: &HashSet<T, Bh>) -> Res<()> {
     let collect = |it: &mut dyn Iterator<Item = &T>, what: &str| -> Res<BTreeSet<u64>> {
+        // walk it once with a clone-free two-pass trick: the hints are recorded on the way and
+        // judged when the number of remaining elements is known
         let mut out = BTreeSet::new();
-        for t in it {
+        let mut hints: Vec<(usize, Option<usize>)> = vec![it.size_hint()];
+        while let Some(t) = it.next() {
             if !out.insert(t.val()) {
                 viol!("C13", "{what} yielded {} twice", t.val());
+            }
+            hints.push(it.size_hint());
+        }
+        let total = out.len();
+        for (i, (lo, hi)) in hints.iter().enumerate() {
+            let left = total - i.min(total);
+            if *lo > left || hi.map_or(false, |h| h < left) {
+                viol!("C13", "{what}: size_hint() = ({lo}, {hi:?}) with {left} elements still to come");
             }
         }
         Ok(out)
@@ -863,6 +887,8 @@ pub fn sets(a: &Args, rep: &mut Report) {
     let noforget = a.has("noforget") || cfg!(miri);
     let skip = a.u64("skip", 0);
     let progress = a.map.get("progress").cloned();
+    // C17: one summary line per history (with a digest of every call's outcome) and per algebra case
+    let mut tfile = if a.has("transcript") { Some(std::fs::File::create(a.str("transcript", "t.txt")).expect("create transcript")) } else { None };
     for h in 0..sh.n {
         let mut hr = rng.fork();
         if h < skip {
@@ -886,8 +912,16 @@ pub fn sets(a: &Args, rep: &mut Report) {
         };
         rep.evaluations += 1;
         let tag = format!("sets-{}-s{}-i{}-h{}", flavour(), sh.seed, sh.index, h);
+        #[allow(unused_assignments)]
+        let mut tline = String::new();
+        if let Some(f) = &mut tfile {
+            use std::io::Write as _;
+            let _ = writeln!(f, "## history {} {} n={}", h, cfg.describe(), n);
+            let _ = f.flush();
+        }
         match res {
-            Ok((calls, split, old)) => {
+            Ok((calls, split, old, trace)) => {
+                tline = format!("history => ok calls={calls} trace={trace:016x} split={}", (split > 0) as u8);
                 rep.bump("set_calls", calls);
                 rep.bump("set_calls_while_split", split);
                 rep.bump("set_calls_on_old_table_element", old);
@@ -900,6 +934,7 @@ pub fn sets(a: &Args, rep: &mut Report) {
                 }
             }
             Err(v) => {
+                tline = format!("history => VIOL {} after {} calls: {}", v.prop, ops.len(), v.msg);
                 if v.hits(&rep.prop) {
                     let prop = rep.prop.clone();
                     let path = write_replay(&rep.replay_dir, &prop, &tag, &cfg, &ops, &v.msg, &[("kind", "set".to_string())]);
@@ -911,15 +946,32 @@ pub fn sets(a: &Args, rep: &mut Report) {
                 }
             }
         }
+        let mut tlines = vec![tline];
         // algebra cases, three per history slot
         for j in 0..3 {
             let tag = format!("algebra-{}-s{}-i{}-h{}-{}", flavour(), sh.seed, sh.index, h, j);
+            rep.last_direct = None;
             match *hr.pick(&[ElemKind::U64, ElemKind::TrInline, ElemKind::TrHeap]) {
                 ElemKind::U64 => algebra_case::<u64>(&mut hr, rep, &tag),
                 ElemKind::TrInline => algebra_case::<Tr<false>>(&mut hr, rep, &tag),
                 ElemKind::TrHeap => algebra_case::<Tr<true>>(&mut hr, rep, &tag),
                 ElemKind::Big => algebra_case::<Big>(&mut hr, rep, &tag),
             }
+            tlines.push(match &rep.last_direct {
+                None => format!("algebra {j} => ok"),
+                Some((p, m)) => format!("algebra {j} => VIOL {p}: {m}"),
+            });
+        }
+        if let Some(f) = &mut tfile {
+            use std::io::Write as _;
+            let mut t = String::new();
+            for l in &tlines {
+                t.push_str(l);
+                t.push('\n');
+            }
+            t.push_str("## end ok\n");
+            let _ = f.write_all(t.as_bytes());
+            let _ = f.flush();
         }
     }
 }
